@@ -443,33 +443,19 @@ func (db *MemDB) storeAggAttestationUnsafe(unsignedData core.UnsignedData) error
 		CommitteeIndex: commIdx,
 	}
 	if existing, ok := db.aggDuties[key]; ok {
-		existingData, err := existing.Data()
+		existingRoot, err := existing.HashTreeRoot()
 		if err != nil {
-			return errors.Wrap(err, "existing data")
+			return errors.Wrap(err, "existing aggregated attestation root")
 		}
 
-		existingDataRoot, err := existingData.HashTreeRoot()
+		providedRoot, err := aggAtt.HashTreeRoot()
 		if err != nil {
-			return errors.Wrap(err, "existing data root")
+			return errors.Wrap(err, "provided aggregated attestation root")
 		}
 
-		provided := aggAtt
-
-		providedData, err := provided.Data()
-		if err != nil {
-			return errors.Wrap(err, "provided data")
+		if existingRoot != providedRoot {
+			return errors.New("clashing aggregated attestation", z.Str("existing", hex.EncodeToString(existingRoot[:])), z.Str("provided", hex.EncodeToString(providedRoot[:])))
 		}
-
-		providedDataRoot, err := providedData.HashTreeRoot()
-		if err != nil {
-			return errors.Wrap(err, "provided data root")
-		}
-
-		if existingDataRoot != providedDataRoot {
-			return errors.New("clashing data root", z.Str("existing", hex.EncodeToString(existingDataRoot[:])), z.Str("provided", hex.EncodeToString(providedDataRoot[:])))
-		}
-
-		db.aggDuties[key] = provided
 	} else {
 		db.aggDuties[key] = aggAtt
 		db.aggKeysBySlot[slot] = append(db.aggKeysBySlot[slot], key)
